@@ -43,6 +43,12 @@ Proof.
   - cbn [shape slice_elems option_map]. rewrite map_shape_idem. reflexivity.
 Qed.
 
+Lemma key_elems_shape : forall v,
+  option_map (map shape) (key_elems (shape v)) = option_map (map shape) (key_elems v).
+Proof.
+  destruct v; try reflexivity. cbn [shape key_elems option_map]. rewrite map_shape_idem. reflexivity.
+Qed.
+
 Lemma map_entry_cond_shape : forall x, map shape (map_entry_cond (shape x)) = map shape (map_entry_cond x).
 Proof.
   destruct x; try reflexivity. cbn [shape map_entry_cond].
@@ -87,7 +93,7 @@ Definition cond_step (nargs : nat) (all : list val) (a : val) (conds : list val)
     else match conds with
          | _ :: _ => conds
          | [] =>
-           match (if (nargs =? 1)%nat then slice_elems a' else None) with
+           match (if (nargs =? 1)%nat then key_elems a' else None) with
            | Some [] => []
            | Some vs => [VIn primary_column vs]
            | None => [VIn primary_column all]
@@ -101,7 +107,7 @@ Proof. reflexivity. Qed.
 Lemma key_arm_shape : forall n all a conds, 
   map shape (match conds with
              | _ :: _ => conds
-             | [] => match (if (n =? 1)%nat then slice_elems a else None) with
+             | [] => match (if (n =? 1)%nat then key_elems a else None) with
                      | Some [] => []
                      | Some vs => [VIn primary_column vs]
                      | None => [VIn primary_column all]
@@ -109,7 +115,7 @@ Lemma key_arm_shape : forall n all a conds,
              end)
   = map shape (match map shape conds with
                | _ :: _ => map shape conds
-               | [] => match (if (n =? 1)%nat then slice_elems (shape a) else None) with
+               | [] => match (if (n =? 1)%nat then key_elems (shape a) else None) with
                        | Some [] => []
                        | Some vs => [VIn primary_column vs]
                        | None => [VIn primary_column (map shape all)]
@@ -118,8 +124,8 @@ Lemma key_arm_shape : forall n all a conds,
 Proof.
   intros n all a conds. destruct conds as [|c cs]; [|cbn [map]; rewrite shape_idem, map_shape_idem; reflexivity].
   cbn [map]. destruct (n =? 1)%nat; [|cbn [map shape]; rewrite map_shape_idem; reflexivity].
-  pose proof (slice_elems_shape a) as E.
-  destruct (slice_elems a) as [[|x l]|], (slice_elems (shape a)) as [[|x' l']|]; cbn [option_map map] in E;
+  pose proof (key_elems_shape a) as E.
+  destruct (key_elems a) as [[|x l]|], (key_elems (shape a)) as [[|x' l']|]; cbn [option_map map] in E;
     try discriminate E; try reflexivity.
   - cbn [map shape]. inversion E as [[E1 E2]]. rewrite E1, E2. reflexivity.
   - cbn [map shape]. rewrite map_shape_idem. reflexivity.
